@@ -1,6 +1,860 @@
-pub fn gen(_seed: u64, _thorough: bool) -> Vec<String> {
-    vec![]
+//! C15: encoding is total — any pixel data, geometry and options give bytes or a documented error.
+//!
+//! `E <path d|e> <format> <w> <h> <color 0..11> <pitchExtra> <content> <cseed> <quality> <dither> <metric> <parallel> <k|->`
+//!   path d = `dds::encode`, e = `Encoder::new_image` + `write_surface` + `finish` (the fault budget starts after
+//!   the header); content = class of the pixel data (see `fill`); k = the writer accepts k data bytes, then fails.
+//!   result: `<ok | err Name> <data bytes accepted by the writer>`
+//! `Q <format> <r> <g> <b> <a>`  — 1x1 RGBA F32 pixel of special values (names, see `special`) through
+//!   `dds::encode`; result: the encoded bytes as one little-endian number (ties the quantiser models).
+//!
+//! Every implementation call runs on its own thread under `catch_unwind`; a call that does not
+//! return within `HANG_SECS` is reported as a hang.
+use crate::common::*;
+use dds::*;
+use std::io::Write;
+use std::sync::mpsc;
+use std::time::Duration;
+
+const HANG_SECS: u64 = 20;
+/// after the first hang in this process the remaining calls get a shorter deadline, and after
+/// `MAX_HANGS` of them no further call is started (every hung call keeps a thread spinning)
+const HANG_SECS_LATER: u64 = 5;
+const MAX_HANGS: usize = 3;
+static HANGS: std::sync::atomic::AtomicUsize = std::sync::atomic::AtomicUsize::new(0);
+
+// ------------------------------------------------------------------------------------------------
+// the failing writer
+
+struct FaultWriter {
+    /// bytes accepted so far
+    accepted: usize,
+    /// total number of bytes this writer accepts (`None`: unlimited)
+    budget: Option<usize>,
+    /// an error has been returned
+    failed: bool,
+    /// `write` calls with a non-empty buffer after an error had been returned
+    writes_after_failure: usize,
 }
-pub fn run(_line: &str) -> Option<(String, Vec<String>)> {
-    None
+impl FaultWriter {
+    fn new(budget: Option<usize>) -> Self {
+        FaultWriter { accepted: 0, budget, failed: false, writes_after_failure: 0 }
+    }
+}
+impl Write for FaultWriter {
+    fn write(&mut self, buf: &[u8]) -> std::io::Result<usize> {
+        if buf.is_empty() {
+            return Ok(0);
+        }
+        if self.failed {
+            self.writes_after_failure += 1;
+        }
+        match self.budget {
+            None => {
+                self.accepted += buf.len();
+                Ok(buf.len())
+            }
+            Some(b) => {
+                let room = b.saturating_sub(self.accepted);
+                if room == 0 {
+                    self.failed = true;
+                    return Err(std::io::Error::new(std::io::ErrorKind::Other, "injected fault"));
+                }
+                let n = room.min(buf.len());
+                self.accepted += n;
+                Ok(n)
+            }
+        }
+    }
+    fn flush(&mut self) -> std::io::Result<()> {
+        Ok(())
+    }
+}
+/// shared handle so that the harness keeps access while `Encoder` owns the writer
+#[derive(Clone)]
+struct Shared(std::rc::Rc<std::cell::RefCell<FaultWriter>>);
+impl Write for Shared {
+    fn write(&mut self, buf: &[u8]) -> std::io::Result<usize> {
+        self.0.borrow_mut().write(buf)
+    }
+    fn flush(&mut self) -> std::io::Result<()> {
+        Ok(())
+    }
+}
+
+// ------------------------------------------------------------------------------------------------
+// content
+
+pub const CONTENTS: &[&str] = &[
+    "ord", "nan", "pinf", "ninf", "nzero", "huge", "sub", "h65504", "gt1", "lt0", "mix", "bits", "nanalpha", "onepx",
+    "zero", "max",
+];
+
+fn special_value(rng: &mut Rng) -> f32 {
+    match rng.below(14) {
+        0 => f32::NAN,
+        1 => -f32::NAN,
+        2 => f32::INFINITY,
+        3 => f32::NEG_INFINITY,
+        4 => -0.0,
+        5 => 1e30,
+        6 => -1e30,
+        7 => f32::from_bits(1 + rng.below(0x7F_FFFF) as u32),
+        8 => -f32::from_bits(1 + rng.below(0x7F_FFFF) as u32),
+        9 => 65504.0,
+        10 => 1.0 + rng.below(1000) as f32 / 8.0 + 0.125,
+        11 => -(rng.below(1000) as f32 / 8.0) - 0.125,
+        12 => f32::MAX,
+        _ => f32::from_bits(0x7FC0_0000 | rng.below(0x3F_FFFF) as u32),
+    }
+}
+fn ordinary(rng: &mut Rng) -> f32 {
+    rng.below(1025) as f32 / 1024.0
+}
+
+/// fills the `len`-byte buffer of an image of `channels` channels
+fn fill(content: &str, precision: Precision, channels: usize, geom: (u32, u32, usize), seed: u64) -> Vec<u8> {
+    let (w, h, pitch_extra) = geom;
+    let bpp = channels * match precision {
+        Precision::U8 => 1,
+        Precision::U16 => 2,
+        Precision::F32 => 4,
+    };
+    let len = if w == 0 || h == 0 { 0 } else { (w as usize * bpp + pitch_extra) * (h as usize - 1) + w as usize * bpp };
+    let mut rng = Rng::new(seed);
+    let mut buf = vec![0u8; len];
+    // the padding between rows is never read; make it noise
+    if pitch_extra > 0 {
+        buf.iter_mut().for_each(|b| *b = rng.next() as u8);
+    }
+    match precision {
+        Precision::F32 => {
+            // values are laid out row by row so that every row starts with a whole value
+            let per_row = w as usize * channels;
+            let n = if len == 0 { 0 } else { per_row * h as usize };
+            let special_at = if n > 0 { rng.below(n as u64) as usize } else { 0 };
+            for i in 0..n {
+                let ch = i % channels.max(1);
+                let v: f32 = match content {
+                    "ord" => ordinary(&mut rng),
+                    "nan" => f32::NAN,
+                    "pinf" => f32::INFINITY,
+                    "ninf" => f32::NEG_INFINITY,
+                    "nzero" => -0.0,
+                    "huge" => {
+                        if rng.chance(1, 2) {
+                            1e30
+                        } else {
+                            -1e30
+                        }
+                    }
+                    "sub" => {
+                        let s = f32::from_bits(1 + rng.below(0x7F_FFFF) as u32);
+                        if rng.chance(1, 2) {
+                            s
+                        } else {
+                            -s
+                        }
+                    }
+                    "h65504" => 65504.0,
+                    "gt1" => 1.0 + rng.below(100_000) as f32 / 64.0 + 1.0 / 64.0,
+                    "lt0" => -(rng.below(100_000) as f32 / 64.0) - 1.0 / 64.0,
+                    "mix" => {
+                        if rng.chance(1, 2) {
+                            ordinary(&mut rng)
+                        } else {
+                            special_value(&mut rng)
+                        }
+                    }
+                    "bits" => f32::from_bits(rng.next() as u32),
+                    "nanalpha" => {
+                        if ch == channels - 1 {
+                            f32::NAN
+                        } else {
+                            ordinary(&mut rng)
+                        }
+                    }
+                    "onepx" => {
+                        let o = ordinary(&mut rng);
+                        if i / channels.max(1) == special_at / channels.max(1) {
+                            special_value(&mut rng)
+                        } else {
+                            o
+                        }
+                    }
+                    "zero" => 0.0,
+                    "max" => 1.0,
+                    _ => ordinary(&mut rng),
+                };
+                let (row, col) = (i / per_row, i % per_row);
+                let at = row * (per_row * 4 + pitch_extra) + col * 4;
+                buf[at..at + 4].copy_from_slice(&v.to_ne_bytes());
+            }
+        }
+        _ => match content {
+            "zero" => {}
+            "max" => buf.iter_mut().for_each(|b| *b = 0xFF),
+            _ => buf.iter_mut().for_each(|b| *b = rng.next() as u8),
+        },
+    }
+    buf
+}
+
+// ------------------------------------------------------------------------------------------------
+// one implementation call, on its own thread
+
+#[derive(Clone)]
+struct Call {
+    path_encoder: bool,
+    format: Format,
+    w: u32,
+    h: u32,
+    color: ColorFormat,
+    pitch_extra: usize,
+    data: Vec<u8>,
+    options: EncodeOptions,
+    fault: Option<usize>,
+}
+#[derive(Clone, Debug, PartialEq)]
+enum CallResult {
+    Done { kind: String, bytes: usize, writes_after_failure: usize, view_size: (u32, u32) },
+    Panic(String),
+    Hang,
+    BadView,
+    /// not started: `MAX_HANGS` earlier calls of this process never returned
+    NotRun,
+}
+
+fn err_name(e: &EncodingError) -> String {
+    match e {
+        EncodingError::TooManySurfaces => "TooManySurfaces".into(),
+        EncodingError::UnexpectedSurfaceSize => "UnexpectedSurfaceSize".into(),
+        EncodingError::MissingSurfaces => "MissingSurfaces".into(),
+        EncodingError::Cancelled => "Cancelled".into(),
+        EncodingError::InvalidSize(..) => "InvalidSize".into(),
+        EncodingError::UnsupportedFormat(_) => "UnsupportedFormat".into(),
+        EncodingError::Layout(e) => format!("Layout{}", crate::c02::err_name(e)),
+        EncodingError::Io(_) => "Io".into(),
+        _ => "Other".into(),
+    }
+}
+
+fn call_inner(c: &Call) -> CallResult {
+    let size = Size::new(c.w, c.h);
+    let bpr = c.w as usize * c.color.bytes_per_pixel() as usize;
+    let pitch = bpr + c.pitch_extra;
+    let view = match ImageView::new_with(&c.data, pitch, size, c.color) {
+        Some(v) => v,
+        None => return CallResult::BadView,
+    };
+    let view_size = (view.width(), view.height());
+    if !c.path_encoder {
+        let mut wr = FaultWriter::new(c.fault);
+        let r = encode(&mut wr, view, c.format, None, &c.options);
+        let kind = match r {
+            Ok(()) => "ok".to_string(),
+            Err(e) => format!("err {}", err_name(&e)),
+        };
+        CallResult::Done { kind, bytes: wr.accepted, writes_after_failure: wr.writes_after_failure, view_size }
+    } else {
+        let shared = Shared(std::rc::Rc::new(std::cell::RefCell::new(FaultWriter::new(None))));
+        let mut enc = match Encoder::new_image(shared.clone(), size, c.format, false) {
+            Ok(e) => e,
+            Err(e) => {
+                let bytes = shared.0.borrow().accepted;
+                return CallResult::Done { kind: format!("err {}", err_name(&e)), bytes, writes_after_failure: 0, view_size };
+            }
+        };
+        let header_len = shared.0.borrow().accepted;
+        shared.0.borrow_mut().budget = c.fault.map(|k| header_len + k);
+        enc.options = c.options.clone();
+        enc.mipmaps.generate = false;
+        let r = enc.write_surface(view);
+        let kind = match r {
+            Ok(()) => match enc.finish() {
+                Ok(()) => "ok".to_string(),
+                Err(e) => format!("err finish-{}", err_name(&e)),
+            },
+            Err(e) => format!("err {}", err_name(&e)),
+        };
+        let w = shared.0.borrow();
+        CallResult::Done { kind, bytes: w.accepted - header_len, writes_after_failure: w.writes_after_failure, view_size }
+    }
+}
+
+fn call(c: &Call) -> CallResult {
+    use std::sync::atomic::Ordering;
+    let hangs = HANGS.load(Ordering::SeqCst);
+    if hangs >= MAX_HANGS {
+        return CallResult::NotRun;
+    }
+    let deadline = if hangs == 0 { HANG_SECS } else { HANG_SECS_LATER };
+    let (tx, rx) = mpsc::channel();
+    let c2 = c.clone();
+    let builder = std::thread::Builder::new().stack_size(8 << 20);
+    let handle = builder.spawn(move || {
+        let r = std::panic::catch_unwind(std::panic::AssertUnwindSafe(|| call_inner(&c2)));
+        let r = match r {
+            Ok(r) => r,
+            Err(e) => CallResult::Panic(panic_msg(&e)),
+        };
+        let _ = tx.send(r);
+    });
+    if handle.is_err() {
+        return CallResult::Panic("could not spawn the worker thread".into());
+    }
+    match rx.recv_timeout(Duration::from_secs(deadline)) {
+        Ok(r) => r,
+        Err(_) => {
+            HANGS.fetch_add(1, Ordering::SeqCst);
+            CallResult::Hang
+        }
+    }
+}
+
+// ------------------------------------------------------------------------------------------------
+// run
+
+fn parse_options(q: &str, d: &str, m: &str, p: &str) -> Option<EncodeOptions> {
+    let mut o = EncodeOptions::default();
+    o.quality = match q {
+        "fast" => CompressionQuality::Fast,
+        "normal" => CompressionQuality::Normal,
+        "high" => CompressionQuality::High,
+        "unr" => CompressionQuality::Unreasonable,
+        _ => return None,
+    };
+    o.dithering = match d {
+        "none" => Dithering::None,
+        "color" => Dithering::Color,
+        "alpha" => Dithering::Alpha,
+        "both" => Dithering::ColorAndAlpha,
+        _ => return None,
+    };
+    o.error_metric = match m {
+        "uni" => ErrorMetric::Uniform,
+        "perc" => ErrorMetric::Perceptual,
+        _ => return None,
+    };
+    o.parallel = match p {
+        "0" => false,
+        "1" => true,
+        _ => return None,
+    };
+    Some(o)
+}
+
+fn channel_count(c: Channels) -> usize {
+    c.count() as usize
+}
+
+fn buffer_len(w: u32, h: u32, color: ColorFormat, pitch_extra: usize) -> usize {
+    if w == 0 || h == 0 {
+        return 0;
+    }
+    let bpr = w as usize * color.bytes_per_pixel() as usize;
+    (bpr + pitch_extra) * (h as usize - 1) + bpr
+}
+
+pub fn run(line: &str) -> Option<(String, Vec<String>)> {
+    let t = toks(line);
+    match t.first().copied() {
+        Some("E") => run_e(&t),
+        Some("Q") => run_q(&t),
+        _ => None,
+    }
+}
+
+fn run_e(t: &[&str]) -> Option<(String, Vec<String>)> {
+    if t.len() != 14 {
+        return None;
+    }
+    let path_encoder = match t[1] {
+        "d" => false,
+        "e" => true,
+        _ => return None,
+    };
+    let format = format_by_name(t[2])?;
+    let (w, h) = (p_u32(t[3])?, p_u32(t[4])?);
+    if w > 4096 || h > 4096 {
+        return None;
+    }
+    let color = *all_colors().get(p_usize(t[5])?)?;
+    let pitch_extra = p_usize(t[6])?;
+    if pitch_extra > 4096 {
+        return None;
+    }
+    let content = t[7];
+    if !CONTENTS.contains(&content) {
+        return None;
+    }
+    let cseed = p_u64(t[8])?;
+    let options = parse_options(t[9], t[10], t[11], t[12])?;
+    let fault = if t[13] == "-" { None } else { Some(p_usize(t[13])?) };
+
+    let data = fill(content, color.precision, channel_count(color.channels), (w, h, pitch_extra), cseed);
+    let c = Call { path_encoder, format, w, h, color, pitch_extra, data, options, fault };
+    let r = call(&c);
+
+    let mut oracle: Vec<String> = vec![];
+    let res = match &r {
+        CallResult::BadView => return None,
+        CallResult::NotRun => "not-run-after-hangs".to_string(),
+        CallResult::Panic(m) => {
+            oracle.push(format!("panic: {m}"));
+            "panic".to_string()
+        }
+        CallResult::Hang => {
+            oracle.push("hang: the call did not return within the deadline".to_string());
+            "hang".to_string()
+        }
+        CallResult::Done { kind, bytes, writes_after_failure, view_size } => {
+            let vsize = Size::new(view_size.0, view_size.1);
+            let support = format.encoding_support();
+            // the encoder path declares the raw size in the header; an empty size is refused by the layout
+            let layout_refuses = path_encoder && (w == 0 || h == 0);
+            match support {
+                None => {
+                    // unsupported formats are refused
+                    if kind != "err UnsupportedFormat" {
+                        oracle.push(format!("format without encoding support: result '{kind}', expected UnsupportedFormat"));
+                    }
+                    if *bytes != 0 {
+                        oracle.push(format!("format without encoding support: {bytes} bytes were written"));
+                    }
+                }
+                Some(sup) if layout_refuses => {
+                    let _ = sup;
+                    if !kind.starts_with("err Layout") {
+                        oracle.push(format!("empty size declared in a header: result '{kind}', expected a layout error"));
+                    }
+                    if *bytes != 0 {
+                        oracle.push(format!("empty size declared in a header: {bytes} data bytes were written"));
+                    }
+                }
+                Some(sup) => {
+                    let size_ok = sup.supports_size(vsize);
+                    let expected = PixelInfo::from(format).surface_bytes(vsize);
+                    match kind.as_str() {
+                        "ok" => {
+                            if Some(*bytes as u64) != expected {
+                                oracle.push(format!("Ok but {bytes} bytes were written, the encoded length is {expected:?}"));
+                            }
+                            if !size_ok {
+                                oracle.push("Ok for a size that supports_size refuses".to_string());
+                            }
+                            if let (Some(k), Some(e)) = (fault, expected) {
+                                if (k as u64) < e {
+                                    oracle.push(format!("writer failed at byte {k} < {e} but the result is Ok"));
+                                }
+                            }
+                        }
+                        "err InvalidSize" => {
+                            if *bytes != 0 {
+                                oracle.push(format!("InvalidSize after {bytes} bytes were written"));
+                            }
+                            if size_ok {
+                                oracle.push("InvalidSize for a size that supports_size accepts".to_string());
+                            }
+                        }
+                        "err Io" => match (fault, expected) {
+                            (Some(k), Some(e)) if (k as u64) < e => {
+                                if *bytes > k {
+                                    oracle.push(format!("writer accepted {bytes} bytes with a budget of {k}"));
+                                }
+                            }
+                            _ => oracle.push("I/O error without a writer fault below the encoded length".to_string()),
+                        },
+                        other => oracle.push(format!("undocumented result '{other}'")),
+                    }
+                    if !size_ok && kind != "err InvalidSize" {
+                        oracle.push(format!("size not supported by the format but the result is '{kind}'"));
+                    }
+                    if size_ok {
+                        if let (Some(k), Some(e)) = (fault, expected) {
+                            if (k as u64) < e && kind != "err Io" {
+                                oracle.push(format!("writer failed at byte {k} < {e}: result '{kind}', expected an I/O error"));
+                            }
+                        }
+                    }
+                }
+            }
+            if *writes_after_failure > 0 {
+                oracle.push(format!("{writes_after_failure} write(s) issued after the writer had reported an error"));
+            }
+            format!("{kind} {bytes}")
+        }
+    };
+
+    // NaN / Inf / out-of-range content never changes the result kind or the length
+    if color.precision == Precision::F32 && content != "ord" && matches!(r, CallResult::Done { .. }) {
+        let mut c2 = c.clone();
+        c2.data = fill("ord", color.precision, channel_count(color.channels), (w, h, pitch_extra), cseed);
+        let r2 = call(&c2);
+        match (&r, &r2) {
+            (CallResult::Done { kind: k1, bytes: b1, .. }, CallResult::Done { kind: k2, bytes: b2, .. }) => {
+                if k1 != k2 || b1 != b2 {
+                    oracle.push(format!("content '{content}' gives '{k1} {b1}', ordinary content gives '{k2} {b2}'"));
+                }
+            }
+            (_, CallResult::Panic(m)) => oracle.push(format!("panic (ordinary content): {m}")),
+            (_, CallResult::Hang) => oracle.push("hang (ordinary content)".to_string()),
+            _ => {}
+        }
+    }
+    Some((res, oracle))
+}
+
+// ------------------------------------------------------------------------------------------------
+// Q: special values through the quantisers
+
+pub const SPECIALS: &[&str] = &["nan", "pinf", "ninf", "zero", "nzero", "one", "two", "neg", "huge", "nhuge", "half"];
+fn special(name: &str) -> Option<f32> {
+    Some(match name {
+        "nan" => f32::NAN,
+        "pinf" => f32::INFINITY,
+        "ninf" => f32::NEG_INFINITY,
+        "zero" => 0.0,
+        "nzero" => -0.0,
+        "one" => 1.0,
+        "two" => 2.0,
+        "neg" => -1.0,
+        "huge" => 1e30,
+        "nhuge" => -1e30,
+        "half" => 0.5,
+        _ => return None,
+    })
+}
+/// formats whose encoded pixel the model packs from the quantiser models
+pub const Q_FORMATS: &[&str] = &[
+    "B5G6R5_UNORM", "B5G5R5A1_UNORM", "B4G4R4A4_UNORM", "A4B4G4R4_UNORM", "R8G8B8A8_UNORM", "B8G8R8A8_UNORM",
+    "R8G8B8A8_SNORM", "R16G16B16A16_UNORM", "R16G16B16A16_SNORM", "R10G10B10A2_UNORM",
+    "R10G10B10_XR_BIAS_A2_UNORM", "AYUV", "Y410", "Y416",
+];
+
+fn run_q(t: &[&str]) -> Option<(String, Vec<String>)> {
+    if t.len() != 6 {
+        return None;
+    }
+    if !Q_FORMATS.contains(&t[1]) {
+        return None;
+    }
+    let format = format_by_name(t[1])?;
+    let px = [special(t[2])?, special(t[3])?, special(t[4])?, special(t[5])?];
+    let mut data = vec![];
+    for v in px {
+        data.extend_from_slice(&v.to_ne_bytes());
+    }
+    let mut o = EncodeOptions::default();
+    o.parallel = false;
+    let c = Call {
+        path_encoder: false,
+        format,
+        w: 1,
+        h: 1,
+        color: ColorFormat::RGBA_F32,
+        pitch_extra: 0,
+        data: data.clone(),
+        options: o,
+        fault: None,
+    };
+    // `call` does not return the bytes; encode here under the same protection
+    let r = call(&c);
+    let mut oracle = vec![];
+    match r {
+        CallResult::Panic(m) => {
+            oracle.push(format!("panic: {m}"));
+            return Some(("panic".into(), oracle));
+        }
+        CallResult::Hang => {
+            oracle.push("hang: the call did not return within the deadline".to_string());
+            return Some(("hang".into(), oracle));
+        }
+        CallResult::NotRun => return Some(("not-run-after-hangs".into(), oracle)),
+        CallResult::BadView => return None,
+        CallResult::Done { kind, .. } => {
+            if kind != "ok" {
+                oracle.push(format!("1x1 pixel: result '{kind}'"));
+                return Some((kind, oracle));
+            }
+        }
+    }
+    // the call above returned normally, so this one does too
+    let view = ImageView::new(&data, Size::new(1, 1), ColorFormat::RGBA_F32)?;
+    let mut out = Vec::new();
+    let mut o = EncodeOptions::default();
+    o.parallel = false;
+    if encode(&mut out, view, format, None, &o).is_err() {
+        return Some(("err".into(), oracle));
+    }
+    let mut v: u128 = 0;
+    for (i, b) in out.iter().enumerate() {
+        v |= (*b as u128) << (8 * i);
+    }
+    Some((format!("px {v}"), oracle))
+}
+
+// ------------------------------------------------------------------------------------------------
+// generator
+
+const QUALITIES: &[&str] = &["fast", "normal", "high", "unr"];
+const DITHERS: &[&str] = &["none", "color", "alpha", "both"];
+const METRICS: &[&str] = &["uni", "perc"];
+
+fn is_bc(name: &str) -> bool {
+    name.starts_with("BC")
+}
+
+struct G {
+    rng: Rng,
+    out: Vec<String>,
+}
+impl G {
+    #[allow(clippy::too_many_arguments)]
+    fn push(
+        &mut self,
+        path: &str,
+        name: &str,
+        w: u32,
+        h: u32,
+        color: usize,
+        pitch: u32,
+        content: &str,
+        quality: &str,
+        dither: &str,
+        metric: &str,
+        parallel: u32,
+        k: Option<u64>,
+    ) {
+        let cseed = self.rng.below(1_000_000);
+        let k = k.map(|k| k.to_string()).unwrap_or_else(|| "-".into());
+        self.out.push(format!(
+            "E {path} {name} {w} {h} {color} {pitch} {content} {cseed} {quality} {dither} {metric} {parallel} {k}"
+        ));
+    }
+    fn content_for(&mut self, color: usize) -> &'static str {
+        if color >= 8 {
+            CONTENTS[self.rng.below(14) as usize]
+        } else {
+            *self.rng.pick(&["ord", "ord", "zero", "max"])
+        }
+    }
+}
+
+fn enc_len(f: Format, w: u32, h: u32) -> u64 {
+    let s = if w == 0 || h == 0 { Size::new(0, 0) } else { Size::new(w, h) };
+    PixelInfo::from(f).surface_bytes(s).unwrap_or(0)
+}
+
+pub fn gen(seed: u64, thorough: bool) -> Vec<String> {
+    let mut g = G { rng: Rng::new(seed), out: vec![] };
+    let formats = all_formats();
+    let encodable: Vec<(&'static str, Format)> =
+        formats.iter().cloned().filter(|(_, f)| f.encoding_support().is_some()).collect();
+    let bi_planar = |n: &str| n == "NV12" || n == "P010" || n == "P016";
+
+    // (a) the repaired path: empty images into bi-planar formats, both API paths
+    for (name, _) in encodable.iter().filter(|(n, _)| bi_planar(n)) {
+        for &(w, h) in &[(0u32, 0u32), (0, 2), (2, 0), (0, 3), (3, 0), (0, 1), (1, 0)] {
+            for color in [0usize, 3, 6, 7, 9, 11] {
+                for path in ["d", "e"] {
+                    g.push(path, name, w, h, color, 0, "ord", "fast", "none", "uni", 0, None);
+                }
+                g.push("d", name, w, h, color, 0, "ord", "normal", "both", "uni", 1, Some(0));
+            }
+        }
+    }
+
+    // (b) size grid: every format, all residues mod 2 and mod 4, empty sizes
+    let grid: Vec<u32> =
+        if thorough { (0..=40).collect() } else { (0..=17).chain([23, 24, 31, 32, 33, 39, 40]).collect() };
+    let passes = if thorough { 3 } else { 1 };
+    for _pass in 0..passes {
+    for (name, f) in &formats {
+        let enc = f.encoding_support().is_some();
+        let gr: Vec<u32> = if enc { grid.clone() } else { vec![0, 1, 4, 5, 12] };
+        for &w in &gr {
+            for &h in &gr {
+                let color = g.rng.below(12) as usize;
+                let pitch = *g.rng.pick(&[0u32, 0, 0, 1, 7]);
+                let content = g.content_for(color);
+                let dither = *g.rng.pick(DITHERS);
+                let metric = *g.rng.pick(METRICS);
+                let parallel = g.rng.below(2) as u32;
+                let path = if g.rng.chance(1, 5) { "e" } else { "d" };
+                let len = enc_len(*f, w, h);
+                let k = if g.rng.chance(1, 6) { Some(g.rng.below(len + 2)) } else { None };
+                g.push(path, name, w, h, color, pitch, content, "fast", dither, metric, parallel, k);
+            }
+        }
+    }
+    }
+
+    // (c) a writer failing at byte k: boundary offsets for several sizes, every offset for small lengths
+    for (name, f) in &encodable {
+        let sizes: &[(u32, u32)] = if bi_planar(name) {
+            &[(2, 2), (4, 4), (6, 4), (16, 16), (34, 8)]
+        } else {
+            &[(1, 1), (4, 4), (5, 3), (16, 16), (33, 7)]
+        };
+        for (i, &(w, h)) in sizes.iter().enumerate() {
+            let len = enc_len(*f, w, h);
+            let mut ks: Vec<u64> = vec![0, 1, len / 2, len.saturating_sub(1), len, len + 1];
+            if len <= 64 || (thorough && len <= 400) {
+                ks = (0..=len + 1).collect();
+            }
+            ks.sort();
+            ks.dedup();
+            for k in ks {
+                let color = g.rng.below(12) as usize;
+                let content = if i % 2 == 0 { "ord" } else { g.content_for(color) };
+                let pitch = *g.rng.pick(&[0u32, 0, 3]);
+                let parallel = g.rng.below(2) as u32;
+                let dither = *g.rng.pick(DITHERS);
+                let path = if g.rng.chance(1, 4) { "e" } else { "d" };
+                g.push(path, name, w, h, color, pitch, content, "fast", dither, "uni", parallel, Some(k));
+            }
+        }
+    }
+
+    // (d) special float content: every encodable format x every content class x every f32 colour
+    for (name, _) in &encodable {
+        let sizes: &[(u32, u32)] = if bi_planar(name) { &[(2, 2), (6, 4)] } else { &[(1, 1), (5, 3)] };
+        for content in CONTENTS.iter().take(14) {
+            for color in 8..12usize {
+                for &(w, h) in sizes {
+                    let dither = *g.rng.pick(DITHERS);
+                    let metric = *g.rng.pick(METRICS);
+                    g.push("d", name, w, h, color, 0, content, "fast", dither, metric, 0, None);
+                }
+            }
+        }
+        // integer inputs at their extremes
+        for content in ["zero", "max", "ord"] {
+            for color in 0..8usize {
+                let (w, h) = if bi_planar(name) { (4, 2) } else { (5, 2) };
+                let dither = *g.rng.pick(DITHERS);
+                g.push("d", name, w, h, color, 0, content, "fast", dither, "uni", 0, None);
+            }
+        }
+    }
+
+    // (e) the slower quality levels of the block encoders on special content
+    let bcs: Vec<&(&'static str, Format)> = encodable.iter().filter(|(n, _)| is_bc(n)).collect();
+    for (name, _) in bcs.iter().map(|x| **x) {
+        for quality in ["normal", "high"] {
+            for content in CONTENTS.iter().take(14) {
+                for &(w, h) in &[(4u32, 4u32), (9, 6)] {
+                    let color = 8 + g.rng.below(4) as usize;
+                    let dither = *g.rng.pick(DITHERS);
+                    let metric = *g.rng.pick(METRICS);
+                    g.push("d", name, w, h, color, 0, content, quality, dither, metric, 0, None);
+                }
+            }
+        }
+        for content in CONTENTS.iter().take(14) {
+            let color = 8 + g.rng.below(4) as usize;
+            let dither = *g.rng.pick(DITHERS);
+            let metric = *g.rng.pick(METRICS);
+            let (w, h) = *g.rng.pick(&[(4u32, 4u32), (5, 5), (3, 2), (8, 4)]);
+            g.push("d", name, w, h, color, 0, content, "unr", dither, metric, 0, None);
+        }
+        // sizes that the parallel encoder really splits into fragments (> 256 pixels at High)
+        for &(w, h) in &[(40u32, 40u32), (17, 33), (32, 20), (39, 37)] {
+            for quality in ["normal", "high"] {
+                let len = enc_len(Format::BC1_UNORM, w, h) * if name.starts_with("BC1") || name.starts_with("BC4") { 1 } else { 2 };
+                for k in [None, Some(g.rng.below(len)), Some(len - 1)] {
+                    let color = g.rng.below(12) as usize;
+                    let content = g.content_for(color);
+                    let dither = *g.rng.pick(DITHERS);
+                    g.push("d", name, w, h, color, 0, content, quality, dither, "uni", 1, k);
+                }
+            }
+        }
+    }
+
+    // (f) special values through the scalar quantisers (1x1 RGBA F32 pixel)
+    for name in Q_FORMATS {
+        // all channels equal, then each channel special with the others zero / one, then random combinations
+        let yuv = *name == "AYUV" || *name == "Y410" || *name == "Y416";
+        // the chroma rows cancel exactly in exact arithmetic but not in f32 for huge inputs; finite
+        // non-trivial colours are subject to rounding near ties: only saturating inputs for YUV
+        let pool: Vec<&str> = if yuv {
+            vec!["nan", "pinf", "ninf", "zero", "nzero"]
+        } else {
+            SPECIALS.iter().cloned().filter(|s| *s != "half").collect()
+        };
+        for s in &pool {
+            g.out.push(format!("Q {name} {s} {s} {s} {s}"));
+        }
+        let alpha_pool: Vec<&str> = SPECIALS.iter().cloned().filter(|s| *s != "half").collect();
+        for s in &alpha_pool {
+            g.out.push(format!("Q {name} zero zero zero {s}"));
+        }
+        if !yuv {
+            for s in &pool {
+                g.out.push(format!("Q {name} {s} zero zero zero"));
+                g.out.push(format!("Q {name} zero {s} zero one"));
+                g.out.push(format!("Q {name} one one {s} zero"));
+            }
+        }
+        let n = if thorough { 400 } else { 40 };
+        for _ in 0..n {
+            let a = *g.rng.pick(&pool);
+            let b = if yuv { a } else { *g.rng.pick(&pool) };
+            let c = if yuv { a } else { *g.rng.pick(&pool) };
+            let d = *g.rng.pick(&alpha_pool);
+            g.out.push(format!("Q {name} {a} {b} {c} {d}"));
+        }
+    }
+
+    // (g) PRNG over the whole quantifier
+    let n = if thorough { 1_200_000 } else { 40_000 };
+    for _ in 0..n {
+        let (name, f) = if g.rng.chance(1, 12) { *g.rng.pick(&formats) } else { *g.rng.pick(&encodable) };
+        let mut w = g.rng.below(41) as u32;
+        let mut h = g.rng.below(41) as u32;
+        if g.rng.chance(1, 10) {
+            w = *g.rng.pick(&[0u32, 1, 2, 3]);
+        }
+        if g.rng.chance(1, 10) {
+            h = *g.rng.pick(&[0u32, 1, 2, 3]);
+        }
+        if bi_planar(name) && !g.rng.chance(1, 4) {
+            w &= !1;
+            h &= !1;
+        }
+        let color = g.rng.below(12) as usize;
+        let pitch = *g.rng.pick(&[0u32, 0, 0, 1, 4, 13]);
+        let content = g.content_for(color);
+        let quality = if is_bc(name) {
+            match g.rng.below(40) {
+                0..=27 => "fast",
+                28..=35 => "normal",
+                36..=38 => "high",
+                _ => "unr",
+            }
+        } else {
+            *g.rng.pick(QUALITIES)
+        };
+        if quality == "unr" && is_bc(name) {
+            w = w.min(8);
+            h = h.min(8);
+        }
+        if quality == "high" && is_bc(name) && !thorough {
+            w = w.min(24);
+            h = h.min(24);
+        }
+        let dither = *g.rng.pick(DITHERS);
+        let metric = *g.rng.pick(METRICS);
+        let parallel = g.rng.below(2) as u32;
+        let path = if g.rng.chance(1, 5) { "e" } else { "d" };
+        let len = enc_len(f, w, h);
+        let k = match g.rng.below(8) {
+            0 => Some(g.rng.below(len + 2)),
+            1 => Some(*g.rng.pick(&[0, 1, len / 2, len.saturating_sub(1), len])),
+            _ => None,
+        };
+        g.push(path, name, w, h, color, pitch, content, quality, dither, metric, parallel, k);
+    }
+    g.out
 }
